@@ -19,14 +19,15 @@ MON = "c06"
 COMPONENTS = ["brokerclient"]
 PROFILES = ["replies", "replies", "replies", "drops", "close"]
 TRUSTED = [
-    "harness/lib/brokerclient_drive.py emulates what a real TCP transport does around the component: no reads and dropped writes after loseConnection(), connectionLost at once when dataReceived raises; iosim's FakeTransport.write/loseConnection are wrapped (class level) to log what the component hands to its transport",
+    "harness/lib/brokerclient_drive.py drives the component through twisted.test.iosim.FakeTransport (class-level wrappers log what the component hands to its transport) and adds: no data is delivered to the protocol after loseConnection() (true of a TCP transport - stopReading - not of a TLS endpoint, which keeps delivering until shutdown; not modelled, not generated) and connectionLost at once when dataReceived raises. Bytes written AFTER loseConnection() are dropped by iosim's FakeTransport; a real TCP transport still buffers and flushes them before closing. The model records such a write as `writeLost` and counts it as a write (once per connection, never after firing); whether those bytes reach the broker is outside the model - a no-reply request written to a disconnecting transport is reported complete by afkak either way, and on a real TCP transport it IS transmitted; check_server_side compares only `write` (not `writeLost`) with what the simulated broker received",
     "Twisted's Deferred (cancel, callback on a cancelled Deferred), IntNStringReceiver.dataReceived and Clock are modelled, not verified; the framing model is compared with the real KafkaProtocol.dataReceived on every run",
     "the serial number of a request Deferred is the count of makeRequest calls that returned one (harness and model count alike)",
 ]
 ASSUMPTIONS = [
-    "user callbacks attached to request Deferreds do not re-enter the broker client (events are sequential API calls / network events)",
-    "the endpoint honours cancel(): a cancelled connection attempt does not connect afterwards (test_close_connecting_succeed's pathological endpoint is not generated)",
+    "user callbacks attached to request Deferreds are straight-line sequences of close / disconnect / cancel(id) / makeRequest(id) (any length, nested to any depth: modelled in Afkak/BrokerClientR.lean and generated); callbacks that branch on their result or attach callbacks to the Deferreds they create are not modelled",
+    "the endpoint may ignore cancel() and connect from inside the canceller (test_close_connecting_succeed's pathological endpoint) and may report the outcome of connect() synchronously: both modelled and generated; a synchronously failing endpoint combined with a zero retry delay (a busy loop) is not generated",
     "correlation ids of responses are signed 32-bit; a caller using an id outside that range never gets a reply matched (modelled as such)",
+    "the flat monitors (Monitor.C06.accepts / routesOk, Monitor.C10.accepts) judge the flat prefix of an implementation trace - up to the first callback / stubborn / synchronous-endpoint event; beyond it only the stream monitors r06 / r10 and the strict model/implementation diff apply (counts in extra.flat_monitor_coverage)",
 ]
 CORPUS = os.path.join(core.VERIF, "corpus", "brokerclient")
 
@@ -409,6 +410,11 @@ def print_histogram(res, pid):
     brs = sorted((k[3:], v) for k, v in h.items() if k.startswith("br "))
     exs = [k for k in h if k.startswith("ex ")]
     print("%s operations: %s" % (pid, " ".join("%s=%d" % kv for kv in ops)))
+    cov = dict((k[4:], v) for k, v in h.items() if k.startswith("cov "))
+    if cov:
+        res.extra["flat_monitor_coverage"] = cov
+        print("%s flat-monitor coverage of implementation traces (stream monitors r06/r10 judge every step): %s" % (
+            pid, " ; ".join("%s=%d" % kv for kv in sorted(cov.items()))))
     print("%s scenarios exercising: %s" % (pid, " ".join("%s=%d" % kv for kv in feats)))
     print("%s distinct (event, observation-kinds) branches: %d random + %d exhaustive; rarest: %s" % (
         pid, len(brs), len(exs), " ".join("%s=%d" % kv for kv in sorted(brs, key=lambda kv: kv[1])[:6])))
